@@ -41,6 +41,8 @@ class Contract(object):
         self.reveal_ = []
         self.caller_view_ = []
         self.split_depth = None      # explore sub-trees below this decision depth in parallel
+        self.log_calls = False       # call sites append (name, args, result) to the ghost call log
+        self.call_cases = {}         # (callee qualname, requires name) -> {label: guard(f of the caller)}
 
     # --- DSL ---------------------------------------------------------------
     def pre(self, builder):
@@ -89,6 +91,11 @@ class Contract(object):
 
     def summary(self, fn):
         self.summary_fn = fn
+        return self
+
+    def call_pre_case(self, callee, requires_name, label, guard):
+        """Known-finding guard for a callee precondition this function does not establish."""
+        self.call_cases.setdefault((callee, requires_name), {})[label] = guard
         return self
 
     def split(self, depth):
